@@ -315,6 +315,33 @@ func init() {
 			"natively (replay) the real cipher runs: inputs are mutation descriptors applied to the value issued at run time",
 		},
 	}
+	var c16quick, c16all []int
+	for ci := 0; ci < 6; ci++ {
+		for k := 0; k < 4; k++ {
+			c16all = append(c16all, ci*8+k) // token lifecycle, origin absent / null
+		}
+		for k := 4; k < 8; k++ {
+			c16all = append(c16all, 100+ci*8+k) // origin policy
+		}
+	}
+	c16quick = []int{0*8 + 0, 3*8 + 1, 4*8 + 0, 5*8 + 2, 100 + 1*8 + 7, 100 + 2*8 + 4, 100 + 2*8 + 7}
+	csrfPkgs := []string{"github.com/gofiber/fiber/v3", "github.com/gofiber/fiber/v3/internal/memory"}
+	props["C16"] = PropSpec{
+		ID: "C16",
+		Runs: []HarnessRun{
+			{Rel: "middleware/csrf", Dir: "csrf", Entry: "VH_C16_unsafe", Cases: tierCases(c16quick, c16all), Reach: []string{"reached", "rejected"}, MaxPaths: 300000, ExtraPkgs: csrfPkgs},
+		},
+		Bounds: map[string]string{
+			"quick":    "6 configurations (no/exact/wildcard trusted origins, SingleUseToken, external storage with lookup faults); history: safe request issues a token, time gap 0..12 s against IdleTimeout 10 s, optional earlier use, then an unsafe request whose cookie/header token is none / the issued one / forged, with Origin absent / null / scheme://host (host symbolic, 4..6 bytes) or a Referer scheme://host/path (host 4..6, path 0..5 symbolic bytes), on http or https",
+			"thorough": "all 6 configurations x 4 origin kinds x {http, https}",
+		},
+		Assumptions: []string{
+			"header extractor (default); tokens are generated by a counter-based KeyGenerator (utils.UUIDv4 needs crypto/rand)",
+			"session-backed token storage is outside (gob/reflection)",
+			"host and path bytes over [a-z0-9.-]",
+			"soundness direction only: the handler is reached only if the oracle admits (rejections of admissible requests are not flagged)",
+		},
+	}
 	props["SMOKEFAIL"] = PropSpec{
 		ID: "SMOKEFAIL",
 		Runs: []HarnessRun{
